@@ -905,7 +905,67 @@ func (g *Gen) Scenario() []AOp {
 		}
 		return ops
 	}
-	switch g.pick(3) {
+	switch g.pick(6) {
+	case 3, 4, 5: // several rows take one indexed value at once, then some move on: a duplicate remains unless all but one moved
+		// any table with an index whose columns are mutable and at least one of them a plain string or integer
+		var ts []string
+		for _, tn := range g.tableNames() {
+			tb := g.S.Tables[tn]
+			ok := false
+			for _, ix := range tb.Indexes {
+				mut, marker := true, false
+				for _, cn := range ix {
+					c := tb.Cols[cn]
+					if !c.Mut {
+						mut = false
+					}
+					if KindOf(c) == "atom" && (c.Key.T == "string" && len(c.Key.Enum) == 0 || c.Key.T == "integer") {
+						marker = true
+					}
+				}
+				if mut && marker {
+					ok = true
+				}
+			}
+			if ok && len(g.St[tn]) >= 3 {
+				ts = append(ts, tn)
+			}
+		}
+		if len(ts) == 0 {
+			return nil
+		}
+		t := ts[g.pick(len(ts))]
+		us := g.uuidsOf(t)
+		donor := us[g.pick(len(us))]
+		same := map[string]interface{}{}
+		for _, cn := range g.indexCols(t) {
+			same[cn] = g.St[t][donor][cn]
+		}
+		ops := []AOp{{Op: "update", Table: t, Where: [][]interface{}{}, Row: same}}
+		// move away a random number of the other rows (all of them: legal; fewer: a duplicate stays)
+		others := []string{}
+		for _, u := range us {
+			if u != donor {
+				others = append(others, u)
+			}
+		}
+		g.Rnd.Shuffle(len(others), func(i, j int) { others[i], others[j] = others[j], others[i] })
+		keep := 0
+		if g.chance(0.5) {
+			keep = 1 + g.pick(len(others))
+		}
+		for _, u := range others[:len(others)-keep] {
+			row := map[string]interface{}{}
+			orig := g.MarkerRow(t, fmt.Sprintf("y%d", g.next), g.next)
+			g.next++
+			for _, cn := range g.indexCols(t) {
+				if v, ok := orig[cn]; ok && v != nil {
+					row[cn] = v
+				}
+			}
+			ops = append(ops, AOp{Op: "update", Table: t, Where: byUUID(u), Row: row})
+		}
+		return norm(ops)
 	case 0: // swap the indexed values of two rows
 		ts := g.indexedTables(2)
 		if len(ts) == 0 {
